@@ -758,4 +758,103 @@ theorem fixedPoints_not_samples (x xref v : List K) (st : String) (hx : x.Pairwi
   obtain ⟨ri, inRef, hs, ht⟩ := closest_take_ok xref (uniqueK v) hxr hxr0 (uniqueK_sorted v) hq0
   exact fixedPoints_not_samples_of_search x xref v st ri inRef hx hv a ha hax hs ht
 
+/-! ## `truncate`: the bounds in closed form -/
+
+/-- a truncation bound as an abscissa of `x`: the ratio conversion `v * (x[-1] - x[0]) + x[0]` -/
+def truncBound (x : List K) (v : K) (ratio : Bool) : K :=
+  if ratio then v * (x.getLastD 0 - x.headD 0) + x.headD 0 else v
+
+/-- for a non-inverted range on a non-empty strictly increasing series the two scans succeed and
+the slice is `[lowerSpec l : higherSpec r + 1]` -/
+theorem truncateBounds_eq (x : List K) (l r : K) (lr rr : Bool) (hx : x.Pairwise (· < ·))
+    (hx0 : x ≠ []) (h1 : truncBound x l lr < truncBound x r rr) :
+    Process.truncateBounds x l r lr rr =
+      .ok ((C10.lowerSpec true x (truncBound x l lr)).toNat,
+           (C10.higherSpec true x (truncBound x r rr)).toNat + 1) := by
+  unfold truncBound at h1 ⊢
+  unfold Process.truncateBounds
+  simp only [bind, Except.bind, pure, Except.pure, if_neg (not_le.mpr h1)]
+  rw [C10.findLower_spec true x [_] hx (List.pairwise_singleton _ _) hx0 (List.cons_ne_nil _ _),
+    C10.findHigher_spec true x [_] hx (List.pairwise_singleton _ _) hx0 (List.cons_ne_nil _ _)]
+  rfl
+
+/-- `truncate` on a non-empty strictly increasing series fails only with `ValueError` -/
+theorem truncateBounds_err (x : List K) (l r : K) (lr rr : Bool) (hx : x.Pairwise (· < ·))
+    (hx0 : x ≠ []) (e : Err) (h : Process.truncateBounds x l r lr rr = .error e) :
+    e = .valueError := by
+  by_cases h1 : truncBound x r rr ≤ truncBound x l lr
+  · rw [truncateBounds_inverted x l r lr rr h1] at h
+    cases h; rfl
+  · rw [truncateBounds_eq x l r lr rr hx hx0 (not_le.mp h1)] at h
+    cases h
+
+/-- the bounds `truncate` computes for a range that properly overlaps a strictly increasing series:
+the slice keeps at least two samples and stays inside the series -/
+theorem truncateBounds_ok (x : List K) (l r : K) (lr rr : Bool) (hx : x.Pairwise (· < ·))
+    (hlen : 2 ≤ x.length) (h1 : truncBound x l lr < truncBound x r rr)
+    (h2 : truncBound x l lr < x.getLastD 0) (h3 : x.headD 0 < truncBound x r rr) :
+    ∃ a b, Process.truncateBounds x l r lr rr = .ok (a, b) ∧ a + 2 ≤ b ∧ b ≤ x.length := by
+  have hx0 : x ≠ [] := by intro hc; rw [hc] at hlen; simp at hlen
+  rw [truncateBounds_eq x l r lr rr hx hx0 h1]
+  generalize truncBound x l lr = l' at h1 h2
+  generalize truncBound x r rr = r' at h1 h3
+  have hA : x.countP (· ≤ l') ≤ x.countP (· < r') := by
+    apply List.countP_mono_left
+    intro a _ ha
+    simp only [decide_eq_true_eq] at ha ⊢
+    exact lt_of_le_of_lt ha h1
+  have hA2 : x.countP (· ≤ l') < x.length := by
+    rw [lt_iff_le_and_ne]
+    refine ⟨List.countP_le_length, ?_⟩
+    intro hc
+    rw [List.countP_eq_length] at hc
+    have hm : x.getLastD 0 ∈ x := by
+      rw [List.getLastD_eq_getLast?, List.getLast?_eq_getLast_of_ne_nil hx0]
+      exact List.getLast_mem hx0
+    have := hc _ hm
+    simp only [decide_eq_true_eq] at this
+    exact absurd h2 (not_lt.mpr this)
+  have hB : 0 < x.countP (· < r') := by
+    rw [List.countP_pos_iff]
+    refine ⟨x.headD 0, ?_, by simpa using h3⟩
+    obtain ⟨a, t, rfl⟩ := List.exists_cons_of_ne_nil hx0
+    simp
+  have hB2 : x.countP (· < r') ≤ x.length := List.countP_le_length
+  refine ⟨_, _, rfl, ?_, ?_⟩
+  · unfold C10.lowerSpec C10.higherSpec
+    simp only [if_true]
+    split_ifs <;> omega
+  · unfold C10.higherSpec
+    simp only [if_true]
+    split_ifs <;> omega
+
+/-- `truncate_by_value` on a state with non-empty strictly increasing working and reference
+abscissae fails only with `ValueError` -/
+theorem step_truncV_err (s : State K) (l r : K) (lr rr : Bool) (hx : s.x.Pairwise (· < ·))
+    (hx0 : s.x ≠ []) (hrx : s.rx.Pairwise (· < ·)) (hrx0 : s.rx ≠ []) (e : Err)
+    (h : (step s (.truncV l r lr rr)).err = some e) : e = .valueError := by
+  simp only [step] at h
+  cases h1 : Process.truncateBounds s.x l r lr rr with
+  | error e1 =>
+    have : truncateS s.x s.y l r lr rr = .error e1 := by unfold truncateS; rw [h1]; rfl
+    rw [this] at h
+    simp only [fail_err, Option.some.injEq] at h
+    subst h
+    exact truncateBounds_err s.x l r lr rr hx hx0 _ h1
+  | ok ab =>
+    obtain ⟨a, b⟩ := ab
+    rw [truncateS_eq s.x s.y l r lr rr a b h1] at h
+    simp only [] at h
+    cases h2 : Process.truncateBounds s.rx l r lr rr with
+    | error e2 =>
+      have : truncateS s.rx s.ry l r lr rr = .error e2 := by unfold truncateS; rw [h2]; rfl
+      rw [this] at h
+      simp only [fail_err, Option.some.injEq] at h
+      subst h
+      exact truncateBounds_err s.rx l r lr rr hrx hrx0 _ h2
+    | ok ab' =>
+      obtain ⟨a', b'⟩ := ab'
+      rw [truncateS_eq s.rx s.ry l r lr rr a' b' h2] at h
+      simp at h
+
 end TWV.Weaver
